@@ -26,6 +26,9 @@ PLUGIN = os.path.join(BUILD, 'grfacts.so')
 GRIR = os.path.join(BUILD, 'grir')
 
 
+FACTS_VERSION = '2'
+
+
 class AnalysisBroken(Exception):
     """exit 2: the analysis itself cannot be trusted (parse failure, vanished anchor,
     instance floor not met, unknown construct shape)."""
@@ -102,7 +105,7 @@ def source_digest():
 
 def cache_dir(cfg, digest=None):
     d = digest or source_digest()
-    h = hashlib.sha256((d + cfg + ' '.join(flags_for(cfg))).encode()).hexdigest()[:24]
+    h = hashlib.sha256((FACTS_VERSION + d + cfg + ' '.join(flags_for(cfg))).encode()).hexdigest()[:24]
     return os.path.join(CACHE, h)
 
 
@@ -149,6 +152,9 @@ def extract_ast(cfg='Q0', use_cache=True, log=None):
             if f.get('internal'):
                 key = key + '@' + u
             f['unit'] = u
+            if key in merged['functions'] and f['file'].endswith('.cpp') and merged['functions'][key]['unit'] != u \
+                    and merged['functions'][key]['file'] != f['file']:
+                key = key + '@' + u          # alternative units defining the same function (the two VM drivers)
             if key in merged['functions']:
                 continue
             f['key'] = key
